@@ -23,7 +23,7 @@ OPENERS = {"K", "Wa", "Al", "MA", "MB"}
 
 TEMPLATES = {
     "M": "Mark: m{i}", "T": "0.3 Mark: m{i}", "Ts": "0.01 Mark: m{i}", "W": "Wait: 0.3s", "I": "Inst", "L": "Long: 3", "H": "Hang",
-    "A": "OvA", "B": "OvB", "S": "SetOut: {j}", "V": "Valve: Open", "b": "", "c": "# note {i}",
+    "A": "OvA", "B": "OvB", "C": "OvC", "S": "SetOut: {j}", "V": "Valve: Open", "b": "", "c": "# note {i}",
     "EB": "End block", "EBS": "End blocks", "P": "Pause: 0.3s", "Pu": "Pause", "Ho": "Hold: 0.3s", "Hu": "Hold",
     "St": "Stop", "Rs": "Restart", "CA": "Call macro: A", "CB": "Call macro: B",
     "K": "Block: k{i}", "Wa": "Watch: X > 1", "Al": "Alarm: X > 1", "MA": "Macro: A", "MB": "Macro: B",
